@@ -598,7 +598,7 @@ def check_tile(case, ctx):
     lats_r, lons_r = SRTM30.get_grids(name)
     blk = check_grids(ctx, "get_grids", rect, lats_r, lons_r)
     lats, lons = SRTM30.get_native_grids(lat_min, lon_min, lat_max, lon_max)
-    blk2 = check_grids(ctx, "native_grids", rect, lats, lons)
+    check_grids(ctx, "native_grids", rect, lats, lons)
     if blk is not None:
         ctx.check(blk == ((tile_origin(name)[0], TILE_H),
                           (tile_origin(name)[1], TILE_W)),
